@@ -1,5 +1,69 @@
 import Pun.Props.C19
 import Pun.Gen.TmcmcGen
+/-!
+# C19, generated part: the literal constants of `compute_beta_update_evidence` *as the source has them now*
+
+`Pun/Gen/TmcmcGen.lean` is regenerated from `calibration/tmcmc.py` on every run
+(`max_beta = 2.0`, `0.95 * prev_ESS`, floor `50`, tolerance `1e-8`, midpoint factor `0.5`,
+clamp `>= 1 ⇒ 1`).  Here the hypotheses of the generic theorems of `Pun.Props.C19` are discharged
+for those constants, and the constants are proved equal to the ones the executable model uses.
+-/
+set_option linter.unusedSimpArgs false
+set_option linter.unusedVariables false
 namespace Pun.Gen
-theorem tmcmcConsts_eq : tmcmcConsts = Pun.Tmcmc.consts := by decide +kernel
+open Pun.Tmcmc
+
+/-- the model the driver executes uses exactly the constants of the source -/
+theorem tmcmcConsts_eq : tmcmcConsts = consts := by decide +kernel
+
+/-- the midpoint factor and the clamp of the source are the ones hard-wired in `loopO` / `computeBeta` -/
+theorem tmcmc_half_clamp : tmcmcHalf = 1 / 2 ∧ tmcmcClampAt = 1 ∧ tmcmcClampTo = 1 := by decide +kernel
+
+theorem tmcmc_tol_pos : 0 < tmcmcConsts.tol := by decide +kernel
+
+/-- for every exponent `old < 1` the loop body runs (no `UnboundLocalError` inside `while beta < 1`) -/
+theorem tmcmc_wide (old : Rat) (h : old < 1) : tmcmcConsts.tol < tmcmcConsts.maxBeta - old := by
+  have h1 : tmcmcConsts.tol = 1 / 100000000 := by decide +kernel
+  have h2 : tmcmcConsts.maxBeta = 2 := by decide +kernel
+  rw [h1, h2]; linarith
+
+/-- 64 units of fuel cover the bracket `[old, 2]` for every `old ≥ 0` (28 halvings reach `1e-8`) -/
+theorem tmcmc_fuel (old : Rat) (h : 0 ≤ old) : tmcmcConsts.maxBeta - old ≤ tmcmcConsts.tol * 2 ^ fuel := by
+  have h1 : tmcmcConsts.tol = 1 / 100000000 := by decide +kernel
+  have h2 : tmcmcConsts.maxBeta = 2 := by decide +kernel
+  rw [h1, h2]; norm_num [fuel]; linarith
+
+/-- with the source's constants: inside the stage loop (`old < 1`) the call never hits the unbound
+variable, and a returned exponent satisfies `old < β ≤ 1` -/
+theorem tmcmc_progress (ess : Rat → Ans) (old prev : Rat) (hold : old < 1) :
+    computeBeta tmcmcConsts ess old prev ≠ .raise .Unbound ∧
+    ∀ b e cl, computeBeta tmcmcConsts ess old prev = .done b e cl → old < b ∧ b ≤ 1 := by
+  constructor
+  · intro h
+    exact (unbound_iff tmcmcConsts ess old prev).mp h (tmcmc_wide old hold)
+  · intro b e cl h
+    exact ⟨beta_strictly_increases tmcmcConsts ess old prev b e cl (le_of_lt tmcmc_tol_pos) hold h,
+           beta_le_one tmcmcConsts ess old prev b e cl h⟩
+
+/-- with the source's constants and `0 ≤ old`: the fuelled loop is the `while` loop, and the
+unclamped result is optimal within `1e-8` for every antitone ESS -/
+theorem tmcmc_optimal (ess : Rat → Ans) (E : Rat → Rat) (hE : ∀ b e, ess b = .val e → e = E b)
+    (hanti : Antitone E) (old prev b e : Rat) (hold : 0 ≤ old)
+    (h : computeBeta tmcmcConsts ess old prev = .done b e false) :
+    e = E b ∧ (E b = rN tmcmcConsts prev ∨
+      ((∀ x, old < x → x ≤ b - tmcmcConsts.tol → rN tmcmcConsts prev < E x) ∧
+       (∀ x, b + tmcmcConsts.tol ≤ x → x < tmcmcConsts.maxBeta → E x < rN tmcmcConsts prev))) :=
+  bisect_optimal tmcmcConsts ess E hE hanti old prev b e tmcmc_tol_pos (tmcmc_fuel old hold) h
+
+theorem tmcmc_clamp_justified (ess : Rat → Ans) (E : Rat → Rat) (hE : ∀ b e, ess b = .val e → e = E b)
+    (hanti : Antitone E) (old prev b e : Rat) (hold : 0 ≤ old)
+    (h : computeBeta tmcmcConsts ess old prev = .done b e true) :
+    b = 1 ∧ ∀ x, old < x → x ≤ 1 - tmcmcConsts.tol → rN tmcmcConsts prev ≤ E x :=
+  bisect_clamp_justified tmcmcConsts ess E hE hanti old prev b e tmcmc_tol_pos (tmcmc_fuel old hold) h
+
+/-- the target of the source: `rN = max(19/20 · prev, 50)` -/
+theorem tmcmc_rN (prev : Rat) : rN tmcmcConsts prev = max (19 / 20 * prev) 50 := by
+  have : tmcmcConsts = consts := tmcmcConsts_eq
+  rw [this]; rfl
+
 end Pun.Gen
